@@ -7,6 +7,7 @@ import (
 	"fmt"
 	"os"
 	"path/filepath"
+	"runtime"
 	"sort"
 	"strconv"
 	"strings"
@@ -53,6 +54,20 @@ func main() {
 			fmt.Printf("%s %s %s/%s mode=%v conc=%v\n", h.Property, h.Tier, h.Pkg, h.Name, h.Mode, h.Conc)
 		}
 	case "check":
+		// watchdog: a check that does not finish is reported as inconclusive with a goroutine dump
+		limit := 40 * time.Minute
+		if *tier == "thorough" {
+			limit = 6 * time.Hour
+		}
+		go func() {
+			time.Sleep(limit)
+			fmt.Printf("INCONCLUSIVE property=%s watchdog: check exceeded %v\n", *prop, limit)
+			buf := make([]byte, 1<<20)
+			n := runtime.Stack(buf, true)
+			os.Stderr.Write(buf[:n])
+			os.RemoveAll(tmp)
+			os.Exit(3)
+		}()
 		code := check(cfg, *prop, !*noEvidence)
 		os.RemoveAll(tmp)
 		os.Exit(code)
@@ -94,6 +109,9 @@ func check(cfg *Config, prop string, writeEvidence bool) int {
 			continue
 		}
 		if h.Tier == "thorough" && cfg.Tier != "thorough" {
+			continue
+		}
+		if h.Tier == "off" && cfg.OnlyH != h.Name {
 			continue
 		}
 		if v, ok := h.Opts["timeout_"+cfg.Tier]; ok {
@@ -164,6 +182,10 @@ func check(cfg *Config, prop string, writeEvidence bool) int {
 	for _, r := range results {
 		for _, e := range r.Errors {
 			inconc = append(inconc, "engine error: "+e)
+		}
+		if r.H.Opts["claims"] == "none" {
+			// finding-only harness: it keeps a known defect visible and claims nothing else
+			r.Inconclusive = nil
 		}
 		inconc = append(inconc, r.Inconclusive...)
 		for pos := range r.UnwindFail {
